@@ -13,11 +13,19 @@ NonDec(n) == {s \in [1..n -> 1..Len(FSeq)] : \A i \in 1..(n - 1) : s[i] <= s[i +
 
 Configs == UNION {{[i \in 1..n |-> FSeq[s[i]]] : s \in NonDec(n)} : n \in 1..GenMaxFlows}
 
-ASSUME /\ JsonSerialize(GenOut, [configs |-> Configs, txns |-> GenTxns])
+\* Coverage direction: the shape of the trie the implementation model builds for a configuration, with
+\* literal edges abstracted to "L" - which kinds of children meet at which depth and how many flows share a
+\* node.  The driver samples the generated space so that every shape is replayed (the rare shapes - a
+\* wildcard next to a parameter, three flows on one node - are the ones a uniform sample misses).
+AbsEdge(e) == IF e = PEdge \/ e = WEdge THEN e ELSE "L"
+Shape(c) == LET t == Build(c) IN
+            {<<[i \in 1..Len(p) |-> AbsEdge(p[i])], Len(t[p].val[1].fl)>> : p \in {q \in DOMAIN t : t[q].val # <<>>}}
+
+ASSUME /\ JsonSerialize(GenOut, [configs |-> {[fl |-> c, shape |-> Shape(c)] : c \in Configs}, txns |-> GenTxns])
        /\ PrintT(<<"GEN", Cardinality(Configs), Cardinality(GenTxns)>>)
 
 VARIABLE z
-GInit == z = 0
-GNext == UNCHANGED z
-GSpec == GInit /\ [][GNext]_z
+GInit == z = 0 /\ fs = <<>> /\ tree = EmptyTree
+GNext == UNCHANGED <<z, fs, tree>>
+GSpec == GInit /\ [][GNext]_<<z, fs, tree>>
 =============================================================================
